@@ -79,9 +79,10 @@ impl ObjectiveFunction for OneMax {
 }
 
 pub struct RunResult { pub name: &'static str, pub seed: u64, pub error: Option<String>, pub invocations: usize, pub reported_evaluations: usize,
-                       pub min_returned: Option<f64>, pub reported_best: Option<f64>, pub stale: Option<String> }
+                       pub min_returned: Option<f64>, pub reported_best: Option<f64>, pub stale: Option<String>,
+                       pub requested_iterations: u32, pub iterations: u32, pub final_stack: Vec<usize> }
 
-fn run_one<P>(name: &'static str, seed: u64, problem: &P, returned: &Mutex<Vec<f64>>, config: Configuration<P>, f: &dyn Fn(&P::Encoding) -> f64) -> RunResult
+fn run_one<P>(name: &'static str, seed: u64, requested: u32, problem: &P, returned: &Mutex<Vec<f64>>, config: Configuration<P>, f: &dyn Fn(&P::Encoding) -> f64) -> RunResult
 where P: crate::problems::SingleObjectiveProblem + ObjectiveFunction + 'static, P::Encoding: std::fmt::Debug,
 {
     returned.lock().unwrap().clear();
@@ -91,11 +92,14 @@ where P: crate::problems::SingleObjectiveProblem + ObjectiveFunction + 'static, 
         Ok(())
     });
     let rets = returned.lock().unwrap().clone();
-    let mut out = RunResult { name, seed, error: None, invocations: rets.len(), reported_evaluations: 0, min_returned: rets.iter().cloned().reduce(f64::min), reported_best: None, stale: None };
+    let requested_iterations = requested;
+    let mut out = RunResult { name, seed, error: None, invocations: rets.len(), reported_evaluations: 0, min_returned: rets.iter().cloned().reduce(f64::min), reported_best: None, stale: None, requested_iterations, iterations: 0, final_stack: Vec::new() };
     match r {
         Err(e) => out.error = Some(format!("{e:#}")),
         Ok(state) => {
             out.reported_evaluations = state.evaluations() as usize;
+            out.iterations = state.iterations();
+            out.final_stack = { let pops = state.populations(); (0..pops.len()).map(|d| pops.peek(d).len()).collect() };
             out.reported_best = state.best_objective_value().map(|o| o.value());
             let pops = state.populations();
             for d in 0..pops.len() {
@@ -155,13 +159,13 @@ pub fn for_all_runs(check: &mut dyn FnMut(&RunResult)) -> u64 {
         let sp = Sphere { returned: Mutex::new(Vec::new()) };
         let n = 15;
         let real = real_templates(n);
-        for (name, c) in real { let r = run_one(name, seed, &sp, &sp.returned, c, &|s: &Vec<f64>| sphere(s)); check(&r); runs += 1; }
+        for (name, c) in real { let r = run_one(name, seed, if name.contains("ils") { 5 } else { n }, &sp, &sp.returned, c, &|s: &Vec<f64>| sphere(s)); check(&r); runs += 1; }
         let pp = PermCost { returned: Mutex::new(Vec::new()) };
         let perm = perm_templates(n);
-        for (name, c) in perm { let r = run_one(name, seed, &pp, &pp.returned, c, &|s: &Vec<usize>| perm_cost(s)); check(&r); runs += 1; }
+        for (name, c) in perm { let r = run_one(name, seed, if name.contains("ils") { 5 } else { n }, &pp, &pp.returned, c, &|s: &Vec<usize>| perm_cost(s)); check(&r); runs += 1; }
         let bp = OneMax { returned: Mutex::new(Vec::new()) };
         let c = binary_template(n);
-        let r = run_one("binary_ga", seed, &bp, &bp.returned, c, &|s: &Vec<bool>| one_max(s)); check(&r); runs += 1;
+        let r = run_one("binary_ga", seed, n, &bp, &bp.returned, c, &|s: &Vec<bool>| one_max(s)); check(&r); runs += 1;
     }
     runs
 }
@@ -203,4 +207,32 @@ pub fn c05_native_whole_runs() {
     });
     report(&failures, "an evaluated individual does not carry the value the objective function assigns to its solution");
     println!("c05_native_whole_runs: {} runs checked", runs);
+}
+
+/// the population size each template's parameters prescribe for the single population left at the end (None: not fixed)
+fn prescribed_size(name: &str) -> Option<(usize, usize)> {
+    Some(match name {
+        "real_ga" | "binary_ga" | "real_de" => (8, 8),
+        "real_pso" | "real_bh" => (6, 6),
+        "real_fa" => (5, 5),
+        "real_mu_plus_lambda_es" => (4, 4),
+        "real_iwo" => (1, 8),
+        "real_sa" | "permutation_sa" | "real_ls" | "permutation_ls" | "real_ils" | "permutation_ils" | "real_rw" | "permutation_random_walk" | "real_rs" | "permutation_rs" => (1, 1),
+        _ => return None,   // real_cro: the number of molecules changes with decompositions and syntheses
+    })
+}
+
+// @native-harness
+pub fn c16_native_whole_runs() {
+    let mut failures = Vec::new();
+    let runs = for_all_runs(&mut |r| {
+        if let Some(e) = &r.error { note(&mut failures, "runs-to-completion", r, format!("the run failed: {e}")); return }
+        if r.iterations != r.requested_iterations { note(&mut failures, "requested-iterations", r, format!("{} iterations performed, {} requested", r.iterations, r.requested_iterations)) }
+        else if r.final_stack.len() != 1 { note(&mut failures, "stack-balanced", r, format!("{} populations on the stack at the end of the run (sizes {:?}), expected one", r.final_stack.len(), r.final_stack)) }
+        else if let Some((lo, hi)) = prescribed_size(r.name) {
+            if r.final_stack[0] < lo || r.final_stack[0] > hi { note(&mut failures, "population-size", r, format!("final population size {} outside the prescribed {lo}..={hi}", r.final_stack[0])) }
+        }
+    });
+    report(&failures, "a shipped template does not run to completion with a balanced stack");
+    println!("c16_native_whole_runs: {} runs checked", runs);
 }
